@@ -6,10 +6,6 @@
   from this file (`include_str!`), so the Lean statement and the oracle on the emitted text use the same
   reference.  Names that rssl's own lexer/parser already refuses as identifiers are irrelevant (no accepted
   program contains them); whether rssl accepts a name is decided on the real front end by the harness.
-* `hlslNotListed`, `mslNotListed`: the entries of the independent lists that are absent from
-  `RESERVED_NAMES` on the pinned tree (committed; `Thm.C15.reserved_complete_partial` proves that *only*
-  these are absent, so removing any other entry from the Rust tables breaks the proof).
-* `Hygienic`: the declarative reading of the property on a finished name assignment.
 -/
 namespace RsslVerif.Spec.Names
 
@@ -70,29 +66,5 @@ def mslKeywords : List String :=
    "threadgroup_imageblock", "ray_data", "object_data", "kernel", "vertex", "fragment", "half", "uint",
    "ushort", "uchar", "ulong", "size_t", "ptrdiff_t", "int8_t", "uint8_t", "int16_t",
    "uint16_t", "int32_t", "uint32_t", "int64_t", "uint64_t", "metal", "main"]
-
-/-- entries of `hlslKeywords` absent from hlsl/src/names.rs `RESERVED_NAMES` on the pinned tree -/
-def hlslNotListed : List String :=
-  ["AppendStructuredBuffer", "asm", "asm_fragment", "BlendState", "bool", "centroid", "compile", "compile_fragment",
-   "CompileShader", "ComputeShader", "ConsumeStructuredBuffer", "DepthStencilState", "DepthStencilView", "DomainShader", "dword", "export",
-   "fxgroup", "GeometryShader", "Hullshader", "InputPatch", "interface", "line", "lineadj", "linear",
-   "LineStream", "min16float", "min10float", "min16int", "min12int", "min16uint", "nointerpolation", "noperspective",
-   "NULL", "OutputPatch", "pass", "pixelfragment", "PixelShader", "point", "PointStream", "precise",
-   "RasterizerState", "RenderTargetView", "RWTexture1D", "RWTexture1DArray", "sample", "sampler", "SamplerState", "shared",
-   "stateblock", "stateblock_state", "string", "tbuffer", "technique", "technique10", "technique11", "texture",
-   "Texture1D", "Texture1DArray", "Texture2DMS", "Texture2DMSArray", "triangle", "triangleadj", "uniform", "vertexfragment",
-   "VertexShader", "abort", "CheckAccessFullyMapped", "clip", "D3DCOLORtoUBYTE4", "degrees", "determinant", "dst",
-   "errorf", "EvaluateAttributeCentroid", "EvaluateAttributeAtSample", "EvaluateAttributeSnapped", "faceforward", "fma", "frexp", "fwidth",
-   "GetRenderTargetSampleCount", "GetRenderTargetSamplePosition", "ldexp", "lit", "mad", "msad4", "noise", "printf",
-   "radians", "int16_t", "uint16_t"]
-
-/-- entries of `mslKeywords` absent from msl/src/names.rs `RESERVED_NAMES` on the pinned tree -/
-def mslNotListed : List String :=
-  ["alignas", "alignof", "asm", "bool", "char16_t", "char32_t", "double", "export",
-   "for", "noexcept", "nullptr", "register", "static_assert", "thread_local", "typeid", "wchar_t",
-   "and_eq", "bitand", "bitor", "compl", "not", "not_eq", "or_eq", "xor",
-   "xor_eq", "device", "constant", "thread", "threadgroup", "threadgroup_imageblock", "ray_data", "object_data",
-   "ushort", "uchar", "ulong", "size_t", "ptrdiff_t", "int8_t", "uint8_t", "int16_t",
-   "uint16_t", "int32_t", "uint32_t"]
 
 end RsslVerif.Spec.Names
